@@ -8,7 +8,10 @@
 (*        duplicate rejection (checked inside TLC) and one replay case per *)
 (*        sequence (encoded table, expected get() results or rejection).   *)
 (*  "hdr" every unit-header layout: version 2-5 x format x address size x  *)
-(*        byte order x unit type x unit offset 0 / non-zero.               *)
+(*        byte order x unit type x position in the section (alone; third   *)
+(*        of four units after a 64-bit and a 32-bit unit in either order,  *)
+(*        in .debug_info and .debug_types): every unit's section offset    *)
+(*        and the unit/section offset conversions are compared.            *)
 (*  "nav" every forest with <= MaxN entries (incl. DW_CHILDREN_yes with an *)
 (*        empty child list) x every subset of entries carrying             *)
 (*        DW_AT_sibling x trailing null padding x (header variant,         *)
@@ -34,15 +37,15 @@ vars == <<s, wit>>
 (* ---------------- header variants and code schemes --------------------- *)
 Hd(ver, fmt, asz, ut, le, types) == [ver |-> ver, fmt |-> fmt, asz |-> asz, ut |-> ut, le |-> le, types |-> types]
 HV == <<
-  [h |-> Hd(4, 32, 8, 1, TRUE,  FALSE), pre |-> 0, apre |-> 0, sf |-> "ref4",    sibfirst |-> TRUE],
-  [h |-> Hd(5, 64, 4, 2, FALSE, FALSE), pre |-> 1, apre |-> 1, sf |-> "ref8",    sibfirst |-> FALSE],
-  [h |-> Hd(2, 32, 2, 1, TRUE,  FALSE), pre |-> 1, apre |-> 0, sf |-> "refaddr", sibfirst |-> TRUE],
-  [h |-> Hd(3, 64, 8, 1, FALSE, FALSE), pre |-> 0, apre |-> 1, sf |-> "ref2",    sibfirst |-> FALSE],
-  [h |-> Hd(5, 32, 8, 4, TRUE,  FALSE), pre |-> 1, apre |-> 0, sf |-> "ref1",    sibfirst |-> TRUE],
-  [h |-> Hd(5, 32, 1, 5, FALSE, FALSE), pre |-> 0, apre |-> 1, sf |-> "refu2",   sibfirst |-> FALSE],
-  [h |-> Hd(4, 32, 4, 1, TRUE,  TRUE),  pre |-> 1, apre |-> 1, sf |-> "ref4",    sibfirst |-> FALSE],
-  [h |-> Hd(5, 64, 8, 6, TRUE,  FALSE), pre |-> 0, apre |-> 0, sf |-> "ref4",    sibfirst |-> TRUE],
-  [h |-> Hd(5, 32, 4, 3, FALSE, FALSE), pre |-> 1, apre |-> 1, sf |-> "ref8",    sibfirst |-> TRUE] >>
+  [h |-> Hd(4, 32, 8, 1, TRUE,  FALSE), pre |-> <<>>, apre |-> 0, sf |-> "ref4",    sibfirst |-> TRUE],
+  [h |-> Hd(5, 64, 4, 2, FALSE, FALSE), pre |-> <<64>>, apre |-> 1, sf |-> "ref8",    sibfirst |-> FALSE],
+  [h |-> Hd(2, 32, 2, 1, TRUE,  FALSE), pre |-> <<32>>, apre |-> 0, sf |-> "refaddr", sibfirst |-> TRUE],
+  [h |-> Hd(3, 64, 8, 1, FALSE, FALSE), pre |-> <<>>, apre |-> 1, sf |-> "ref2",    sibfirst |-> FALSE],
+  [h |-> Hd(5, 32, 8, 4, TRUE,  FALSE), pre |-> <<64, 32>>, apre |-> 0, sf |-> "ref1",    sibfirst |-> TRUE],
+  [h |-> Hd(5, 32, 1, 5, FALSE, FALSE), pre |-> <<>>, apre |-> 1, sf |-> "refu2",   sibfirst |-> FALSE],
+  [h |-> Hd(4, 32, 4, 1, TRUE,  TRUE),  pre |-> <<64>>, apre |-> 1, sf |-> "ref4",    sibfirst |-> FALSE],
+  [h |-> Hd(5, 64, 8, 6, TRUE,  FALSE), pre |-> <<>>, apre |-> 0, sf |-> "ref4",    sibfirst |-> TRUE],
+  [h |-> Hd(5, 32, 4, 3, FALSE, FALSE), pre |-> <<32, 64>>, apre |-> 1, sf |-> "ref8",    sibfirst |-> TRUE] >>
 
 Tags == <<17, 46, 16649, 36, 65535, 11>>          \* incl. 2- and 3-byte ULEB tags
 CodesOf(scheme, n) ==
@@ -60,25 +63,36 @@ TableOf(scheme, e, F) ==
     IF scheme = "seq" THEN ds \o <<Decoy(scheme, n)>> ELSE <<Decoy(scheme, n)>> \o ds
 
 (* a unit in front of the unit under test, so that its section offset is not 0 *)
-PrefixUnit(h) == EncUnitHeader(Hd(4, 32, 4, 1, h.le, h.ver < 5 /\ h.types), 0, 2) \o <<1, 7>>
+(* `pre` is the sequence of formats (32/64) of the units in front; a 32-bit unit always follows *)
+(* a non-empty prefix's unit under test, so that a 64-bit unit is also *followed* by units.     *)
+PrefixUnit(h, fmt) == EncUnitHeader(Hd(4, fmt, 4, 1, h.le, h.ver < 5 /\ h.types), 0, 2) \o <<1, 7>>
+RECURSIVE PrefixUnits(_, _)
+PrefixUnits(h, pre) == IF pre = <<>> THEN <<>> ELSE PrefixUnit(h, Head(pre)) \o PrefixUnits(h, Tail(pre))
+RECURSIVE PrefixOffsets(_, _, _)
+PrefixOffsets(h, pre, off) == IF pre = <<>> THEN <<>>
+                              ELSE <<off>> \o PrefixOffsets(h, Tail(pre), off + Len(PrefixUnit(h, Head(pre))))
 AbbrevPrefix == <<1, 17, 0, 0, 0, 0>>
 
 DeclObs(d) == IF d = None THEN "none" ELSE [tag |-> d.tag, hc |-> d.hc, nattrs |-> Len(d.attrs)]
 EntryToks(T) == {i \in DOMAIN T : T[i].k = "e"}
 
 MkStream(F, pad, hv, scheme) ==
-    LET prefix == IF hv.pre = 1 THEN PrefixUnit(hv.h) ELSE <<>>
+    LET prefix == PrefixUnits(hv.h, hv.pre)
         apfx == IF hv.apre = 1 THEN AbbrevPrefix ELSE <<>>
         e == [h |-> hv.h, uoff |-> Len(prefix), sf |-> hv.sf, sibfirst |-> hv.sibfirst,
               codes |-> CodesOf(scheme, Len(F)), tags |-> Tags]
         T == Tokens(e, F, pad)
         E == EndOff(e, F, pad)
         decls == TableOf(scheme, e, F)
+        unit == EncUnit(e, F, T, E, Len(apfx))
+        trailer == IF hv.pre = <<>> THEN <<>> ELSE PrefixUnit(hv.h, 32)
         universe == {decls[i].code : i \in DOMAIN decls} \cup {<<>>, <<Len(F) + 2>>, <<126>>, <<0, 0, 0, 0, 8>>, C2p63 }
     IN [T |-> T, E |-> E,
-        info |-> prefix \o EncUnit(e, F, T, E, Len(apfx)),
+        info |-> prefix \o unit \o trailer,
+        (* the section offset of every unit of the section, in order *)
+        alloffs |-> PrefixOffsets(hv.h, hv.pre, 0) \o <<Len(prefix)>> \o (IF trailer = <<>> THEN <<>> ELSE <<Len(prefix) + Len(unit)>>),
         abbrev |-> apfx \o EncAbbrevTable(decls),
-        uidx |-> hv.pre, le |-> hv.h.le, types |-> hv.h.ver < 5 /\ hv.h.types,
+        uidx |-> Len(hv.pre), le |-> hv.h.le, types |-> hv.h.ver < 5 /\ hv.h.types,
         exph |-> ExpHeader(hv.h, Len(prefix), Len(apfx), E - HeaderSize(hv.h)),
         raw |-> [i \in DOMAIN T |-> RObsA(T, E, i, 0)],
         entries |-> SortUp(EntryToks(T)),
@@ -87,7 +101,7 @@ MkStream(F, pad, hv, scheme) ==
 
 StreamCase(sid, st) ==
     [t |-> "stream", sid |-> sid, info |-> st.info, abbrev |-> st.abbrev, uidx |-> st.uidx, le |-> st.le,
-     types |-> st.types, exph |-> st.exph, raw |-> st.raw,
+     types |-> st.types, exph |-> st.exph, alloffs |-> st.alloffs, raw |-> st.raw,
      entries |-> [j \in DOMAIN st.entries |-> [off |-> st.T[st.entries[j]].off,
                                                exp |-> EntObsA(st.T, st.entries[j], st.T[st.entries[j]].d)]],
      gets |-> st.gets]
@@ -242,9 +256,9 @@ AbStep == /\ s.ph = "ab" /\ Len(s.cs) < MaxA
 HdrForest == <<[par |-> 0, hc |-> TRUE, sib |-> TRUE], [par |-> 1, hc |-> FALSE, sib |-> FALSE]>>
 HdrStep == /\ s.ph = "h0"
            /\ \E ver \in 2..5 : \E fmt \in {32, 64} : \E asz \in {1, 2, 4, 8} : \E le \in BOOLEAN :
-              \E ut \in 1..6 : \E types \in BOOLEAN : \E pre \in {0, 1} :
+              \E ut \in 1..6 : \E types \in BOOLEAN : \E pre \in {<<>>, <<64, 32>>, <<32, 64>>} :
                 /\ (ver < 5 => ut = 1) /\ (ver = 5 => ~types)
-                /\ LET hv == [h |-> Hd(ver, fmt, asz, ut, le, types), pre |-> pre, apre |-> pre, sf |-> "ref4", sibfirst |-> le]
+                /\ LET hv == [h |-> Hd(ver, fmt, asz, ut, le, types), pre |-> pre, apre |-> IF pre = <<>> THEN 0 ELSE 1, sf |-> "ref4", sibfirst |-> le]
                        st == MkStream(HdrForest, 1, hv, "seq")
                        sid == <<"hdr", ver, fmt, asz, ut, IF le THEN 1 ELSE 0, IF types THEN 1 ELSE 0, pre>> IN
                    /\ s' = [ph |-> "hdr", sid |-> sid]
